@@ -55,11 +55,21 @@ func (s spec) childWrap(t *cqlT) string {
 	return s.inner
 }
 
-func keyBase(t *cqlT) reflect.Type { return t.sc.pref }
+// keyBase: the Go type of a map key. Blob keys travel as strings ([]byte is not comparable; the blob codec
+// accepts and produces strings), so a map<blob,V> has typed Go representations but no untyped one.
+func keyBase(t *cqlT) reflect.Type {
+	if t.sc.fam == famBytes {
+		return tString
+	}
+	return t.sc.pref
+}
 
 func keySample(t *cqlT, k int) interface{} {
 	if t.sc.fam == famText {
 		return keyText(k)
+	}
+	if t.sc.fam == famBytes {
+		return string([]byte{byte(k), 0xAB, 0x01}) // never empty: keys must stay distinct
 	}
 	return t.sc.sample(k)
 }
